@@ -20,7 +20,7 @@ from ..inline import flatten
 from ..loader import stmt_of
 from ..solver_model import Sweep, PARTITIONS, iter_partition
 
-TECHNIQUE = ('static analysis on the flattened reduction passes: append/remove pairing on all paths of the decorative pass, branch-outcome facts (CFG) for the alias guard and the reference scan, argument roles of the token replacer with temporaries resolved, must-pass-through of the token refresh, exhaustiveness of partition consumers')
+TECHNIQUE = ('static analysis on the flattened reduction passes: append/remove pairing on all paths of the decorative pass, branch-outcome facts (CFG) for the alias guard and the reference scan, argument roles of the token replacer with temporaries resolved, must-pass-through of the token refresh, exhaustiveness of partition consumers; the token-exact renamer clause of C13.R1 recorded as R2; no k=0 pass left by break')
 EXPLANATION = (
     'Reduction may only move an equation between partitions (never drop or duplicate one) and may only substitute an alias by '
     'its definition through the token-level replacer, in the right direction, in every equation, keeping the derived token '
@@ -464,6 +464,20 @@ def run(prog, check):
                  'the pass over %s visits every entry' % lp_.iter.attr if not brk else
                  'the k=0 pass over %s is left by `break`: the entries listed after that point keep 0.0 at k=0' % lp_.iter.attr,
                  'a decorative alias listed after a decorative variable that has an initial condition, reduction on vs off')
+    # what the alias detector compares is the right-hand side without blanks and without ONE leading '+': the helper that prepares it
+    # may slice the text only as [1:] (any other slice turns `+YD` into `D` and makes INC = +YD an alias of D)
+    P_ = prog.classes.get('EquationParser')
+    cl_ = P_.methods.get('CleanupRightHandSide') if P_ else None
+    if cl_ is not None:
+        check.saw(cl_)
+        for x_ in ast.walk(cl_.node):
+            if isinstance(x_, ast.Subscript) and isinstance(x_.slice, ast.Slice) and isinstance(x_.ctx, ast.Load):
+                sl_ = x_.slice
+                ok_sl = sl_.upper is None and sl_.step is None and isinstance(sl_.lower, ast.Constant) and sl_.lower.value == 1
+                check.ob('C03.R2', '%s::cleanup-cuts-one-leading-character(%s)' % (cl_.key, unparse(x_)), ok_sl, '%s:%d' % (cl_.module.rel, x_.lineno),
+                         'the clean-up removes the first character only' if ok_sl else
+                         'the clean-up keeps `%s` of the right-hand side: a different text is compared with the variable names, so an equation '
+                         'that is no alias is substituted away' % unparse(x_), 'INC = +YD next to a variable D')
     # the optional steady-state start treats the variables set aside like the solved ones
     from ._common import steady_state_covers_all_series, steady_state_loop
     ssf_, loop_, subst_ = steady_state_loop(prog)
@@ -477,9 +491,9 @@ def run(prog, check):
     renamers_ = {call_name(c) for c in ast.walk(flatten(prog, alias_pass).node) if isinstance(c, ast.Call) and (call_name(c) or '').startswith('replace_token')}
     b13 = Borrowed(check, lambda rule, key: rule == 'C13.R1' and any(('::%s::' % r_) in key for r_ in renamers_), 'C03.R2',
                    'alias x = y while another variable is called x_1 / xx: only x may be renamed')
-    _c13.run(prog, b13)
+    b13.run_lender(_c13, prog)
     if not b13.n:
-        raise AnalysisError('the token-level renamer used by the reduction was not found among the renamers C13 judges (%s)' % sorted(renamers_))
+        check.note('the token-level renamer used by the reduction was not among the renamers C13 could judge (%s)' % sorted(renamers_))
     check.floor('C03.R5', 2)
     check.floor('C03.R1', 5)
     check.floor('C03.R2', 8)
